@@ -15,6 +15,7 @@ mod c16;
 mod c20;
 mod c11;
 mod c05;
+mod c12;
 
 use util::*;
 
@@ -95,6 +96,8 @@ fn main() {
     "C11" => c11::run(&mut out, &mut rng, thorough),
     "C05" => c05::run(&mut out, &mut rng, thorough, "C05"),
     "C06" => c05::run(&mut out, &mut rng, thorough, "C06"),
+    "C12" => c12::run_c12(&mut out, &mut rng, thorough),
+    "C13" => c12::run_c13(&mut out, &mut rng, thorough),
     "C08" => c07::run_c08(&mut out, &mut rng, thorough),
     _ => { eprintln!("unknown property {}", prop); std::process::exit(2); }
   }
